@@ -594,6 +594,31 @@ pub fn error_span_case(rng: &mut Rng, ctx: &mut Ctx) {
                     }
                     ctx.count("error_spans_checked");
                     ctx.count(&format!("error_variant.{}", parse_err_variant(&e)));
+                    // errors that name a piece of the source: the span is where that piece is
+                    if text.is_char_boundary(sp.start) && text.is_char_boundary(sp.end) {
+                        let slice = &text[sp.start..sp.end];
+                        let named: Option<(&str, String)> = match &e {
+                            xot::ParseError::UnknownPrefix(p, _) => Some(("UnknownPrefix", p.clone())),
+                            xot::ParseError::DuplicateAttribute(n, _) => Some(("DuplicateAttribute", n.clone())),
+                            xot::ParseError::UnsupportedVersion(v, _) => Some(("UnsupportedVersion", v.clone())),
+                            xot::ParseError::InvalidEntity(n, _) => Some(("InvalidEntity", n.clone())),
+                            _ => None,
+                        };
+                        if let Some((variant, payload)) = named {
+                            // loose on purpose: the named piece, without reference delimiters, occurs inside the slice
+                            let core = payload.trim_matches(|c| c == '&' || c == ';');
+                            if slice.contains(core) {
+                                ctx.count(&format!("error_payload_in_span.{}", variant));
+                            } else {
+                                ctx.violation(
+                                    "a ParseError names a piece of the source and reports a span where that piece is not",
+                                    format!("C17/{}/error-span-not-at-the-named-text/{}", ep.name(), variant),
+                                    J::obj().set("text", J::s(trunc(&text, 1200))).set("error", J::s(format!("{:?}", e))).set("slice", J::s(slice.to_string())),
+                                );
+                                return;
+                            }
+                        }
+                    }
                 }
                 Err(p) => {
                     ctx.violation("ParseError::span() panicked", format!("C17/{}/error-span-panic", ep.name()), J::obj().set("panic", J::s(p.short())));
